@@ -18,7 +18,7 @@ GENERATORS = {
     "C13": ["logics"],
     "C07": ["printerops"],
     "C08": ["parserops"],
-    "C09": ["parserops"],
+    "C09": ["parserops", "hrops"],
     "C16": ["pendingpop"],
 }
 
